@@ -295,6 +295,15 @@ func (x *Exec) eval(env *Env, ex Expr) SV {
 						if c, ok := p.Pkg.Scope().Lookup(e.Name).(*types.Const); ok {
 							return x.constSV(c)
 						}
+						// a package-level function used as a value (e.g. model.WeightIdentity handed to a mapper parameter)
+						if fo, ok := p.Pkg.Scope().Lookup(e.Name).(*types.Func); ok {
+							if fn := x.prog.FuncValue(fo); fn != nil {
+								name := "fnval_" + sanitize(shortFuncName(fn))
+								x.U.Declare(name, SInt)
+								x.closureAxiom(fn, name)
+								return SV{T: App(name, SInt), Typ: fo.Type()}
+							}
+						}
 					}
 				}
 			}
